@@ -6,7 +6,7 @@ from hypothesis import strategies as st
 from .. import build, gen
 from ..core import Discard, Part, call, is_raised, relerr, require
 from ..observe import EvaluationCap
-from ..solver import make_pv, solve
+from ..solver import legit_exit_flip, make_pv, solve
 
 ID = "C02"
 RULE = ("cases: 8 built-in + synthetic mixtures x {NRTL, UNIQUAC} x {vacuum, permeate temperature 120 K..T_feed (30% within 5 K), "
@@ -221,6 +221,9 @@ def check(case):
                             "permeances x %r changed the permeate composition %r -> %r", k, _comp(j), _comp(j2))
                 classes.append("scaling-checked")
             else:
+                require(legit_exit_flip(evals, tr2.evals, case["precision"]),
+                        "permeances x %r changed the number of iterations (%d -> %d evaluations) although the step size was not at a "
+                        "rounding tie with the precision: the stopping decision depends on the permeance scale", k, len(evals), len(tr2.evals))
                 classes.append("exit-flip")
 
     dfs = [abs(j[i] / perms[i]) for i in (0, 1)]
